@@ -363,8 +363,15 @@ def wrapper_discipline(C, R, cfg, state_adts, rule):
         for o, _f in roles.state_structs[sp]['owners']:
             owners.add(o)
     n = 0
-    state_fields = {sp: set(f['name'] for f in F.adt(sp)['variants'][0]['fields']) for sp in state_adts}
-    breached = set()
+    # functions outside the state layer that mutate this family's lock-protected state directly are transitions of
+    # their own: entry_methods() hands them to the path rules (locked state addressed as `self`); recorded here
+    from rl import breach_wrappers
+    br = breach_wrappers(F, C.cg(cfg))
+    for sp in sorted(state_adts):
+        for p2, flds in sorted(br.get(sp, {}).items()):
+            R.ok(rule, '%s|%s|direct mutation: judged as a transition of its own' % (p2, '/'.join(sorted(flds))))
+            R.observe('%s: %s mutates %s of %s directly; the rules judge it as a transition like the state methods'
+                      % (rule, p2, '/'.join(sorted(flds)), sp.split('::')[-1]))
     # free helpers that are only ever called from state methods belong to the state layer
     CG = C.cg(cfg)
     changed = True
@@ -392,38 +399,6 @@ def wrapper_discipline(C, R, cfg, state_adts, rule):
             locks = [e for e in path.events if e['k'] == 'lock' and e['frame'] == own_frame]
             calls = [e for e in path.events if e['k'] == 'call' and e.get('mode') == 'inline'
                      and e['callee'] in state_fn_adt and e['frame'] == own_frame]
-            # direct mutating access to a field of THIS family's lock-protected state from outside the state layer
-            for e in path.events:
-                if e.get('fn') != fn['path'] and (F.fn(e.get('fn') or '') or {}).get('parent') != fn['path']:
-                    continue
-                locs = []
-                if e['k'] in ('write', 'take', 'replace', 'update_waker'):
-                    locs.append(e.get('loc') or e.get('slot'))
-                elif e['k'] == 'qop' and e['op'] not in ('is_empty', 'peek_first', 'peek_last', 'peek_min'):
-                    locs.append(e.get('queue'))
-                elif e['k'] == 'call':
-                    tys = e.get('argtys') or []
-                    for i, a in enumerate(e['args']):
-                        if a[0] == 'ref' and i < len(tys) and tys[i].startswith('&mut'):
-                            if i == 0 and a[1] and a[1][-1] == '<locked>':
-                                continue
-                            locs.append(a[1])
-                for loc in locs:
-                    if not loc or '<locked>' not in loc:
-                        continue
-                    k = loc.index('<locked>')
-                    field = next((x for x in loc[k + 1:] if isinstance(x, str)), None)
-                    for sp in state_adts:
-                        mod = sp.rsplit('::', 1)[0]
-                        if field in state_fields[sp] and fn['path'].lstrip('<').startswith(mod + '::'):
-                            key = (fn['path'], field)
-                            if key not in breached:
-                                breached.add(key)
-                                R.fail(rule, [fn['path'], 'wrapper-reaches-into-state', field],
-                                       '%s mutates `%s` of the lock-protected %s directly instead of calling a state '
-                                       'function: the transitions judged by the path rules are no longer the only '
-                                       'ones' % (fn['path'], field, sp.split('::')[-1]),
-                                       where(F, e) if e.get('ln') else '%s:%s' % (fn['file'], fn['line']))
             if not calls and not locks:
                 continue
             if not calls:
@@ -590,7 +565,7 @@ def entered_unqueued(path, root, initial):
 
 
 def fair_no_requeue(R, E, F, m, paths, owns, rule, what, excluded=None, initial='New', fair_only=True,
-                    unlinked=None):
+                    unlinked=None, all_variants=None):
     """a queued waiter of a FIFO primitive never changes its place: (fair_only: on a path that can be fair) the own
     node is put into the queue only when it entered the transition in its initial state.  `excluded(path, root)` may
     name the invariant that makes the path infeasible (checked by the caller).  returns the number of enqueues"""
@@ -607,8 +582,14 @@ def fair_no_requeue(R, E, F, m, paths, owns, rule, what, excluded=None, initial=
             k0 = path.facts.get(('discr', ('init', root + ('data', 'state'))))
             why = excluded(path, root) if excluded else None
             allowed = unlinked or (initial,)
-            if k0 and k0[0] == 'eq' and k0[1] in allowed:
-                R.ok(rule, '%s|enqueue of a %s node|%s' % (m['path'], k0[1], path_cond(E, path)))
+            # the entry states this path admits: a known variant, or every variant not excluded by the path
+            possible = None
+            if k0 and k0[0] == 'eq':
+                possible = {k0[1]}
+            elif k0 and k0[0] == 'ne' and all_variants:
+                possible = set(all_variants) - set(k0[1])
+            if possible and possible <= set(allowed):
+                R.ok(rule, '%s|enqueue of a %s node|%s' % (m['path'], '/'.join(sorted(possible)), path_cond(E, path)))
             elif why:
                 R.ok(rule, '%s|re-queue path excluded: %s|%s' % (m['path'], why, path_cond(E, path)))
             else:
@@ -677,3 +658,48 @@ def _find_adt_aggs(v, adt, out, depth=0):
     for x in v:
         if isinstance(x, tuple):
             _find_adt_aggs(x, adt, out, depth + 1)
+
+
+# ---------------------------------------------------------------------- the value slot of a channel state
+def slot_discipline(R, E, F, CG, state, rule, writers=('send',), may_take=True):
+    """Over EVERY transition of the state (its entry methods and any function outside the state layer that mutates it
+    directly): the value slot is assigned only by the listed writer methods, and it is emptied (take / replace /
+    mem::replace) only on a path that hands the old payload to the caller (or that knows the slot was empty);
+    may_take=False: never emptied at all (broadcast flavours deliver clones)."""
+    from rl import entry_methods
+    n = 0
+    for m in entry_methods(F, CG, state):
+        for path in E.run(m['path']):
+            if path.exit != 'return':
+                continue
+            for e in path.events:
+                loc = e.get('loc')
+                if not loc or loc[:1] != (('P', 'self'),) or fields_of(loc)[:1] != ('value',):
+                    continue
+                if e['k'] == 'write' and not any(t['k'] in ('take', 'replace') and t['loc'] == loc and t.get('ln') == e.get('ln')
+                                                 for t in path.events):
+                    n += 1
+                    if m.get('impl_adt') == state and m.get('name') in writers:
+                        R.ok(rule, '%s|slot assigned by %s' % (m['path'], m.get('name')))
+                    elif e['val'] == NONE and not may_take:
+                        R.fail(rule, [m['path'], 'slot-cleared'], '%s clears the value slot' % m['path'], where(F, e),
+                               {'trace': trace_summary(path)})
+                    elif e['val'] != NONE:
+                        R.fail(rule, [m['path'], 'slot-assigned-outside-send'],
+                               '%s assigns the value slot (only %s may)' % (m['path'], '/'.join(writers)), where(F, e),
+                               {'trace': trace_summary(path)})
+                elif e['k'] in ('take', 'replace'):
+                    n += 1
+                    old = e['old']
+                    k = E.variant_known(path.facts, old)
+                    inner = E.project(old, (('dc', 'Some'), '0'))
+                    if old == NONE or k == ('eq', 'None'):
+                        R.ok(rule, '%s|empties a slot known to be empty' % m['path'])
+                    elif may_take and (contains(path.ret, inner) or contains(path.ret, old)):
+                        R.ok(rule, '%s|slot emptied, payload handed to the caller|%s' % (m['path'], path_cond(E, path)))
+                    else:
+                        R.fail(rule, [m['path'], 'slot-emptied-without-delivery'],
+                               '%s takes the stored value out of the slot and does not hand it to its caller: a value '
+                               'that was accepted is discarded by the library [%s]' % (m['path'], path_cond(E, path)),
+                               where(F, e), {'trace': trace_summary(path)})
+    return n
